@@ -43,6 +43,10 @@ type harness struct {
 		n int
 	}
 	provider, providerPK string
+
+	// script, when set, replaces the connection-limit script and the traffic
+	// script of an accepted configuration (pipebin_test.go).
+	script func(tree interface{}, servers []liveServer, tag string, hopeless func() bool) interface{}
 }
 
 // observation is what one execution of one configuration showed.
@@ -63,6 +67,7 @@ type observation struct {
 	DDRProbes     int           `json:"ddr_probes,omitempty"`
 	Restart       *restartInfo  `json:"restart,omitempty"`
 	ConnLimit     *limitResult  `json:"connection_limit_script,omitempty"`
+	Custom        interface{}   `json:"custom_script,omitempty"`
 	StartMS       int64         `json:"start_ms"`
 	TrafficMS     int64         `json:"traffic_ms"`
 	StopMS        int64         `json:"stop_ms"`
@@ -607,14 +612,16 @@ func (h *harness) attempt(ms []mutation, tag string) (obs *observation, collided
 	// hopeless: the process died or printed a panic; waiting for more answers
 	// cannot change the verdict.
 	hopeless := func() bool { return exited() || sink.hasBad() }
-	if _, _, applies := lp.applicable(); applies && !sp.TimeTouched {
+	if h.script != nil {
+		obs.Custom = h.script(tree, servers, sp.Tag, hopeless)
+	} else if _, _, applies := lp.applicable(); applies && !sp.TimeTouched {
 		// Let every listener reach its first Accept before the count matters.
 		time.Sleep(100 * time.Millisecond)
 		cl := runConnLimitScript(servers, lp, sp.Tag, hopeless)
 		obs.ConnLimit = &cl
 		time.Sleep(100 * time.Millisecond)
 	}
-	if obs.ConnLimit == nil || obs.ConnLimit.Violation == "" {
+	if h.script == nil && (obs.ConnLimit == nil || obs.ConnLimit.Violation == "") {
 		obs.Groups, obs.Queries = runTraffic(servers, sp, hopeless)
 	}
 	obs.TrafficMS = time.Since(tTraffic).Milliseconds()
